@@ -21,7 +21,9 @@
 (*                                                                           *)
 (* The result is a sequence of output tokens: Keep(i) = segment i of the      *)
 (* input, byte for byte; Ins("css") / Ins("js") / Ins("frag") = the           *)
-(* generated tag block (its content is property C04's business).              *)
+(* generated tag block (its content is property C04's business, except that  *)
+(* it carries the components' own texts verbatim - see "what the inserted     *)
+(* blocks carry").                                                            *)
 (***************************************************************************)
 EXTENDS Naturals, Sequences, FiniteSets
 
@@ -93,6 +95,36 @@ AdmissibleVia(doc, via, mode) ==
     [] via = "mw_html" -> Admissible(doc, "document")
     [] OTHER           -> {Identity(doc)}
 
+(* ---- what the inserted blocks carry -------------------------------------- *)
+\* The content of the generated tag blocks is property C04's business, with one exception
+\* that *this* property determines: the document is altered "only by ... inserting the
+\* generated tags".  The tags are generated from the components' own texts -
+\* "This CSS will be inserted into the page as an inlined <style> tag", "JS will be
+\* inserted into the page as an inlined <script> tag" (getting_started/adding_js_and_css.md),
+\* Media entries given as "safe" strings "are taken as is" (defining_js_css_html_files.md) -
+\* and these texts are DATA: whatever is inserted is never read as a template, a format
+\* string or a pattern by the insertion step.  So for every component of the document the
+\* block of the kind carries each such text byte for byte (a contiguous sub-text), whatever
+\* characters it is made of, at placeholders and at the default locations alike.
+\*
+\* A carried text ("payload") is a sequence of units; the alphabet is made of the sequences
+\* that replacement-template / format mini-languages give a meaning to, plus plain text:
+\*   bs_n `\n`  bs_d `\d`  bs_1 `\1`  bs_g0 `\g<0>`  bs_bs `\\`  bs_f101 `\f101`
+\*   bs_201C `\201C`  bs_0 `\0`  bs_q `\"`  dollar `$1`  pct `%s`  brace `{0}`  txt `ab`
+\* (concrete spellings are the harness's; the specification is symmetric in them).
+PayUnits == {"txt", "bs_n", "bs_d", "bs_1", "bs_g0", "bs_bs", "bs_f101", "bs_201C", "bs_0", "bs_q",
+             "dollar", "pct", "brace"}
+PayloadsUpTo(n) == UNION {[1..k -> PayUnits] : k \in 0..n}
+\* what the block must contain for a payload p, unit by unit: p itself - no unit is interpreted,
+\* dropped, doubled or replaced, and a payload never makes the call fail
+Carried(p) == p
+\* block kinds that every admissible result of the call inserts at least once (document mode):
+\* there the carried texts are observable in the result
+InsertedKinds(doc, via, mode) ==
+  {k \in {"css", "js"} :
+     /\ via \in {"direct", "mw_html"}
+     /\ \A o \in AdmissibleVia(doc, via, mode) : \E j \in DOMAIN o : o[j].k = k}
+
 (* ---- theorems (checked by TLC over every document of the bounded space) - *)
 KeptOf(out)  == SelectSeq(out, LAMBDA x : x.k = "seg")
 InsOf(out)   == SelectSeq(out, LAMBDA x : x.k # "seg")
@@ -149,4 +181,15 @@ TypePreserved == \A ity \in Types : /\ ExpectedType("direct", ity) = ity
                                     /\ \A via \in Vias \ {"direct"} : ExpectedType(via, ity) = "bytes"
 PassThrough(doc) == \A via \in {"mw_other", "mw_stream"}, mode \in Modes :
                        AdmissibleVia(doc, via, mode) = {Identity(doc)}
+
+\* the carried texts are observable exactly where the statement inserts a block: at a placeholder of
+\* the kind or at the default location of the kind (an end tag recognised under both readings of the
+\* zone), in document mode, never in a fragment or in a response that is passed through
+PayloadSitesDocumented(doc) ==
+  /\ \A via \in {"mw_other", "mw_stream"}, mode \in Modes : InsertedKinds(doc, via, mode) = {}
+  /\ InsertedKinds(doc, "direct", "fragment") = {}
+  /\ InsertedKinds(doc, "mw_html", "fragment") = InsertedKinds(doc, "direct", "document")
+  /\ "css" \in InsertedKinds(doc, "direct", "document") <=> (Has(doc, "cssph") \/ Ends(doc, "head", FALSE) # {})
+  /\ "js" \in InsertedKinds(doc, "direct", "document") <=> (Has(doc, "jsph") \/ Ends(doc, "body", FALSE) # {})
+CarriedVerbatim(n) == \A p \in PayloadsUpTo(n) : Carried(p) = p /\ Len(Carried(p)) = Len(p)
 =============================================================================
